@@ -48,31 +48,32 @@ type LetDef struct{ Name, Text string }
 
 // Contract is the specification of one function.
 type Contract struct {
-	Key      string // e.g. "evaluator.normalizeIndex", "evaluator.(*arrayVal).Slice", "fmt.Errorf"
-	Pkg      string // short package name of the contract file ("" for trusted table)
-	Header   string
-	Recv     string
-	Params   []string
-	Results  []string
-	Props    []string
-	Ints     string // "math" (default) or "bv64"
-	Requires []*Clause
-	Ensures  []*Clause
-	Loops    map[int]*LoopSpec
-	Modifies []string
-	ModSet   bool
-	Lets     []LetDef
-	Inline   bool
-	Trusted  bool
-	Pure     bool // result is an uninterpreted function of the arguments
-	Iface    bool // interface-level contract
-	NoVerify bool // contract assumed at call sites but body not verified here (listed)
-	PanicOK  bool // explicit panics are declared outcomes
-	Logs     []string
-	File     string
-	Line     int
-	Refines  string
-	Opts     map[string]string
+	Key        string // e.g. "evaluator.normalizeIndex", "evaluator.(*arrayVal).Slice", "fmt.Errorf"
+	Pkg        string // short package name of the contract file ("" for trusted table)
+	Header     string
+	Recv       string
+	Params     []string
+	Results    []string
+	Props      []string
+	Ints       string // "math" (default) or "bv64"
+	Requires   []*Clause
+	Ensures    []*Clause
+	Loops      map[int]*LoopSpec
+	Modifies   []string
+	ModSet     bool
+	Lets       []LetDef
+	Inline     bool
+	Trusted    bool
+	Pure       bool // result is an uninterpreted function of the arguments
+	Iface      bool // interface-level contract
+	NoVerify   bool // contract assumed at call sites but body not verified here (listed)
+	PanicOK    bool // explicit panics are declared outcomes
+	Logs       []string
+	File       string
+	Line       int
+	Refines    string
+	Propagates []string // callees whose error result must be returned at once (nothing else is called after it)
+	Opts       map[string]string
 }
 
 // PureDef is a spec-only function: //@ pure name(a T, b U) R = expr
@@ -93,18 +94,19 @@ type TypeInv struct {
 
 // Specs holds everything parsed from contract files.
 type Specs struct {
-	Funcs   map[string]*Contract
-	Order   []string
-	Pures   map[string]*PureDef
-	Globals map[string][]string // pkg -> global invariants (assumed at entry)
-	TypeInv map[string][]*TypeInv
-	Files   []string
-	Assumes []string        // textual list of "assume"/"trusted" occurrences
-	Owned   map[string]bool // owned map fields: "pkg.Type.field"
+	Funcs     map[string]*Contract
+	Order     []string
+	Pures     map[string]*PureDef
+	Globals   map[string][]string // pkg -> global invariants (assumed at entry)
+	TypeInv   map[string][]*TypeInv
+	Files     []string
+	Assumes   []string        // textual list of "assume"/"trusted" occurrences
+	Owned     map[string]bool // owned map fields: "pkg.Type.field"
+	FrameSets map[string][]string
 }
 
 func newSpecs() *Specs {
-	return &Specs{Funcs: map[string]*Contract{}, Pures: map[string]*PureDef{}, Globals: map[string][]string{}, TypeInv: map[string][]*TypeInv{}, Owned: map[string]bool{}}
+	return &Specs{Funcs: map[string]*Contract{}, Pures: map[string]*PureDef{}, Globals: map[string][]string{}, TypeInv: map[string][]*TypeInv{}, Owned: map[string]bool{}, FrameSets: map[string][]string{}}
 }
 
 var clauseRe = regexp.MustCompile(`^(mustfail\s+)?(requires|ensures|invariant|decreases)(\[[^\]]*\])?\s+(.*)$`)
@@ -172,6 +174,20 @@ func (sp *Specs) parseSpecFile(path, pkg string) error {
 		case strings.HasPrefix(line, "global "):
 			sp.Globals[pkg] = append(sp.Globals[pkg], strings.TrimSpace(strings.TrimPrefix(line, "global ")))
 			sp.Assumes = append(sp.Assumes, fmt.Sprintf("global invariant assumed (%s): %s", pkg, strings.TrimPrefix(line, "global ")))
+			cur = nil
+		case strings.HasPrefix(line, "frameset "):
+			rest := strings.TrimPrefix(line, "frameset ")
+			i := strings.Index(rest, "=")
+			if i < 0 {
+				return fmt.Errorf("%s:%d: frameset needs '='", path, lineNo)
+			}
+			var items []string
+			for _, it := range strings.Split(rest[i+1:], ",") {
+				if t := strings.TrimSpace(it); t != "" {
+					items = append(items, t)
+				}
+			}
+			sp.FrameSets[strings.TrimSpace(rest[:i])] = append(sp.FrameSets[strings.TrimSpace(rest[:i])], items...)
 			cur = nil
 		case strings.HasPrefix(line, "owned "):
 			sp.Owned[pkg+"."+strings.TrimSpace(strings.TrimPrefix(line, "owned "))] = true
@@ -377,7 +393,9 @@ func parseDirective(c *Contract, line, path string, lineNo int, sp *Specs) error
 	case "modifies":
 		rest := strings.TrimSpace(strings.TrimPrefix(line, "modifies"))
 		var items []string
-		if rest != "nothing" {
+		if strings.HasPrefix(rest, "allbut ") {
+			items = append(items, rest)
+		} else if rest != "nothing" {
 			for _, it := range splitTop(rest, ',') {
 				items = append(items, strings.TrimSpace(it))
 			}
@@ -410,6 +428,8 @@ func parseDirective(c *Contract, line, path string, lineNo int, sp *Specs) error
 		c.PanicOK = true
 	case "logs":
 		c.Logs = append(c.Logs, fields[1:]...)
+	case "propagates":
+		c.Propagates = append(c.Propagates, fields[1:]...)
 	case "refines":
 		c.Refines = fields[1]
 	case "opt":
